@@ -248,9 +248,41 @@ pub fn run(ctx: &Ctx) -> Report {
     }
     run_enumerated(&mut sec, c, ctx.workers, check, |c, _| format!("c05:{}:{}", c.model.name(), c.transport.label()));
     rep.sections.push(sec);
+
+    // "a solid fill encodes a colour identically to a per-pixel stream" over histories: what a transport
+    // keeps staged from an earlier fill or stream must not leak into the encoding of a later fill
+    let mut sec = Section::new(
+        &format!("fill-and-stream-sequences[{}]", ctx.variant),
+        "pin-level transports (SPI with generated buffer lengths, 8/16-bit parallel), every model: 2..6 calls from {fill_solid, clear, set_pixels, fill_contiguous} with colours from a palette of two or three values and rectangles of different sizes; every cell is decoded by the controller model and compared with the colour drawn there last (the C01 oracle); non-trivial as for C01",
+    );
+    run_generated(&mut sec, ctx.seed ^ 0x55, ctx.cases(40_000, 600_000), ctx.workers, fill_sequences, super::c01::check, |_, r| format!("c05:seq:{}", r.chars().take(30).collect::<String>()));
+    rep.sections.push(sec);
     rep
 }
 
-pub fn replay(_section: &str, case: &Value) -> Result<(), String> {
+fn fill_sequences() -> proptest::strategy::BoxedStrategy<crate::exec::ProgCase> {
+    use proptest::prelude::*;
+    crate::gen::config(crate::gen::ConfigMenu::pin_level())
+        .prop_flat_map(|cfg| {
+            let (lw, lh) = cfg.logical_size(cfg.orient);
+            // seeds whose low bits select the palette / uniform colour modes of `colour_of`
+            let seed = prop_oneof![3 => (0u32..3).prop_map(|k| 7 + 8 * k), 2 => (0u32..3).prop_map(|k| UNIFORM_SEED_BASE + k), 1 => any::<u32>()];
+            let rect = crate::gen::inner_rect(lw, lh, 1 << 10);
+            let op = prop_oneof![
+                4 => (rect.clone(), seed.clone()).prop_map(|(rect, seed)| DrawOp::FillSolid { rect, seed }),
+                1 => seed.clone().prop_map(|seed| DrawOp::Clear { seed }),
+                1 => (rect.clone(), seed.clone()).prop_map(|(rect, seed)| DrawOp::FillContiguous { rect, len: StreamLen::Infinite, seed }),
+                1 => (rect, seed).prop_map(|(r, seed)| DrawOp::SetPixels { sx: r.x as u16, sy: r.y as u16, ex: (r.x as u32 + r.w - 1) as u16, ey: (r.y as u32 + r.h - 1) as u16, n: (r.w * r.h) as u32, seed }),
+            ];
+            (Just(cfg), proptest::collection::vec(op, 2..=6))
+        })
+        .prop_map(|(cfg, ops)| crate::exec::ProgCase { cfg, ops })
+        .boxed()
+}
+
+pub fn replay(section: &str, case: &Value) -> Result<(), String> {
+    if section.starts_with("fill-and-stream-sequences") {
+        return super::c01::check(&super::de::<crate::exec::ProgCase>(case)?, &mut CaseInfo::default());
+    }
     check(&super::de::<ColourCase>(case)?, &mut CaseInfo::default())
 }
